@@ -24,6 +24,14 @@ Subset
                `Vec::new()`, tuples, `if` expressions, `S { a, b: e }` (→ tuple in field order), `*c.borrow()`, `*r`,
                `&e`, `&mut e` (references are transparent), calls of functions declared in the spec (abstract
                parameters such as `Op::operation`, or other translated functions).
+Additions for the FM-index chain (genfm; docs/notes/GEN.md "Additions for the FM-index chain"): spec-level `rewrites` of
+token sequences into calls of abstract functions; opaque parameter types (`generics`); trait methods `self.m(..)` and
+external functions as abstract parameters; `Option<T>` (`seq.get(i)`, `if let Some(&x) = e`, `.expect("..")`, `.unwrap()`,
+`Some(e)`, `None`); `return` nested below `if`s (continuation duplicated per branch); `break` as the last statement of
+`if c { …; break; }` in a `for` body (flag in the fold state); `loop { … }` in tail position with `return` as only exit (helper
+on fuel); a function tail `if c {stmts} else {stmts}`; slices as values (`slice_values`), `&v[a..=b]`; `vv[i].push(e)`,
+`v.reserve(n)`, `Vec::with_capacity(n)`; enums of the spec as generated inductives (`enums`, `pinned_items`); calls of other
+translated functions with their abstract parameters (`calls … extra`), `imports`; `within` (function inside a pinned impl).
 Output style: the monad `RbV.Rs.Res` (`ok | panic | fuel`, RbV/Basic/RsSem.lean), `do` blocks of `let x ← …` / `let x := …`
 with Rust's mutation expressed by shadowing, `for` loops as `List.foldlM` of a named body function over `List.range'` /
 the slice / `zipIdx`, `while` loops as named recursive helpers on fuel.  Loop helpers are named `<fn>_for<k>`,
@@ -2500,10 +2508,56 @@ pub fn checksum(data: &[u8], modulus: u32) -> u32 {
     }
     acc
 }
+
+// genfm: `if let Some(..)`, nested early `return`, `break`, enum constructors, `loop` with `return`, `Some`/`None`
+pub enum Hit {
+    Found(usize),
+    Missing,
+}
+
+pub fn probe(xs: &[u32], i: usize, key: u32) -> Hit {
+    if i < xs.len() {
+        if let Some(&x) = xs.get(i) {
+            if x == key {
+                return Hit::Found(i);
+            }
+        }
+    }
+    let mut j = 0;
+    for &x in xs.iter() {
+        if x == key {
+            break;
+        }
+        j += 1;
+    }
+    if j < xs.len() {
+        Hit::Found(j)
+    } else {
+        Hit::Missing
+    }
+}
+
+pub fn collatz(n0: u64) -> Option<u64> {
+    if n0 > 0 {
+        let mut n = n0;
+        let mut steps = 0;
+        loop {
+            if n == 1 {
+                return Some(steps);
+            }
+            n = if n % 2 == 0 { n / 2 } else { 3 * n + 1 };
+            steps += 1;
+        }
+    } else {
+        None
+    }
+}
 """
 
 SELFTEST_UNIT = dict(
     name="SrcSelfTest", props="self-test", file="src/selftest.rs",
+    enums={"Hit": dict(variants=[("Found", ["usize"]), ("Missing", [])])},
+    pinned_items=["pub enum Hit { Found(usize), Missing, }"],
     functions=[
         dict(name="find_first", lean="findFirst", header="pub fn find_first(xs: &[u32], key: u32) -> usize",
              params=[("xs", "&[u32]"), ("key", "u32")], ret="usize"),
@@ -2512,6 +2566,10 @@ SELFTEST_UNIT = dict(
              ret="Vec<u64>", fuel=["x + 1"]),
         dict(name="checksum", lean="checksum", header="pub fn checksum(data: &[u8], modulus: u32) -> u32",
              params=[("data", "&[u8]"), ("modulus", "u32")], ret="u32"),
+        dict(name="probe", lean="probe", header="pub fn probe(xs: &[u32], i: usize, key: u32) -> Hit",
+             params=[("xs", "&[u32]"), ("i", "usize"), ("key", "u32")], ret="Hit", locals={"j": "usize"}),
+        dict(name="collatz", lean="collatz", header="pub fn collatz(n0: u64) -> Option<u64>",
+             params=[("n0", "u64")], ret="Option<u64>", locals={"steps": "u64"}, fuel=["1000"]),
     ])
 
 # (statement text placed in a function `fn f(v: &[u8], n: usize) -> usize { … }`, substring expected in the refusal)
@@ -2559,7 +2617,11 @@ def selftest(with_lean):
             ok = False
         checks = ["#eval findFirst [5, 7, 7, 9] 7   -- ok 1", "#eval findFirst [] 7   -- ok 0",
                   "#eval squares 17   -- ok [0, 1, 4, …, 225, 0, 33]", "#eval digits 9075   -- ok [5, 7, 0, 9]",
-                  "#eval checksum [1, 2, 3] 1000003", "#eval checksum [1, 2, 3] 0   -- panic (assert!)"]
+                  "#eval checksum [1, 2, 3] 1000003", "#eval checksum [1, 2, 3] 0   -- panic (assert!)",
+                  "#eval probe [5, 7, 9] 2 7   -- ok (Hit.Found 1), through `break`",
+                  "#eval probe [5, 7, 9] 1 7   -- ok (Hit.Found 1), through the early `return`",
+                  "#eval probe [5] 0 9   -- ok Hit.Missing", "#eval collatz 6   -- ok (some 8)",
+                  "#eval collatz 0   -- ok none", "#eval collatz 27   -- ok (some 111)"]
         lean_text = text.replace("end RbV.Gen.SrcSelfTest", "\n".join(checks) + "\nend RbV.Gen.SrcSelfTest")
         if with_lean:
             lf = os.path.join(tmp, "SelfTest.lean")
@@ -2569,7 +2631,8 @@ def selftest(with_lean):
             p = subprocess.run(["lake", "env", "lean", lf], cwd=lean_dir, stdout=subprocess.PIPE, stderr=subprocess.STDOUT,
                                text=True, timeout=600)
             print(p.stdout.strip())
-            want = ["RbV.Rs.Res.ok 1", "RbV.Rs.Res.ok 0", "225, 0, 33]", "RbV.Rs.Res.ok [5, 7, 0, 9]", "RbV.Rs.Res.panic"]
+            want = ["RbV.Rs.Res.ok 1", "RbV.Rs.Res.ok 0", "225, 0, 33]", "RbV.Rs.Res.ok [5, 7, 0, 9]", "RbV.Rs.Res.panic",
+                    "Hit.Found 1", "Hit.Missing", "some 8", "RbV.Rs.Res.ok none", "some 111"]
             if p.returncode != 0 or any(w not in p.stdout for w in want):
                 print("selftest: the generated Lean does not compile or evaluates differently")
                 ok = False
